@@ -325,6 +325,36 @@ def builder_flow(F):
     r.ob(ok)
     if not ok:
         r.violate("%s | register" % fn["path"], F.loc(fn), "the function is not registered with its name")
+    # replace_import_in_module_with_tag: the function that takes the import's place keeps the import's own type index — the
+    # payload of its `TypeRef::Func(..)` — not a type looked up or interned by signature (an equal signature may sit at another
+    # index with other finality / supertype / rec group, and `ref.func`/`call_indirect` users see the index)
+    ri = F.one_fn(name="replace_import_in_module_with_tag", self_adt="FunctionBuilder")
+    lf = [c for c in walk(ri["body"]) if c.get("k") == "Call" and (c.get("callee") or "").endswith("LocalFunction::<'a>::new")]
+    if len(lf) != 1:
+        r.undecided("replace_import_in_module_with_tag: %d LocalFunction::new calls" % len(lf))
+    else:
+        a0 = lf[0]["args"][0]
+        seen_h, todo, verdict = set(), [a0], None
+        while todo and verdict is None and len(seen_h) < 20:
+            e_ = todo.pop()
+            for x in walk(e_):
+                if x.get("k") in ("MethodCall", "Call") and (x.get("callee") or x.get("inst") or "").split("::")[-1] in ("add_func_type", "add_func_type_with_params", "add_type"):
+                    verdict = "interned"
+                if x.get("k") == "Path" and x.get("res", {}).get("r") == "local" and x["res"]["hid"] not in seen_h:
+                    seen_h.add(x["res"]["hid"])
+                    pat_, scr_, kind_ = binding_site(ri["body"], x["res"]["hid"])
+                    if pat_ is not None and any(q.get("variant") == "Func" and "TypeRef" in (q.get("adt") or "") for q in walk(pat_)):
+                        verdict = verdict or "import"
+                    elif scr_ is not None:
+                        todo.append(scr_)
+        if verdict is None:
+            r.undecided("replace_import_in_module_with_tag: where the new function's type index comes from was not recognised")
+        else:
+            ok = verdict == "import"
+            r.ob(ok, {"replace_import: type index of the new local function": verdict})
+            if not ok:
+                r.violate("%s | type index %s" % (ri["path"], verdict), F.loc(ri, lf[0]),
+                          "the function that replaces the import gets a type index interned by signature instead of the import's own (`TypeRef::Func(idx)`): for a non-final / sub-typed / rec-grouped import type the replacement has another type index, so ref.func and call_indirect users of the former import no longer type-check or trap")
     # inject = push_op once
     inj = [f for f in F.fns if f["name"] == "inject" and (f.get("self_adt") or "").endswith("FunctionBuilder")]
     if len(inj) != 1:
@@ -480,6 +510,33 @@ def type_dedup(F):
                             if not okk:
                                 r.violate("%s | constants" % fn["path"], F.loc(fn, s), "%s does not use the documented defaults (no supertype, final, unshared)" % fn["name"])
     r.count("add_type_callers", n_c)
+    # every id an add_*_type* hands back is the result of add_type on the type built from its arguments: a shortcut that
+    # returns some existing index by looking at part of a type (signature only) bypasses the exact-equality dedup
+    from rules.fields import _tail_values
+    for fn in F.find_fns(self_adt=MT):
+        if fn.get("body") is None or not (fn["name"].startswith("add_") and fn["name"] != "add_type" and "TypeID" in (fn.get("ret") or "")):
+            continue
+        rets = list(_tail_values(fn["body"])) + [peel(x["e"]) for x in walk(fn["body"]) if x.get("k") == "Ret" and isinstance(x.get("e"), dict)]
+        for rv in rets:
+            rv = peel(rv) if isinstance(rv, dict) else {}
+            okr = None
+            if rv.get("k") == "MethodCall" and rv["method"] in ("add_type",) or (rv.get("k") == "MethodCall" and rv["method"].startswith("add_") and (place_path(rv["recv"]) or "") == "self"):
+                okr = True
+            elif rv.get("k") == "Path" and rv.get("res", {}).get("r") == "local":
+                _, init, _k = binding_site(fn["body"], rv["res"]["hid"])
+                if init is not None and any(y.get("k") == "MethodCall" and y["method"].startswith("add_") and (place_path(y["recv"]) or "") == "self" for y in walk(init)):
+                    okr = True
+                elif init is not None:
+                    okr = False
+            elif rv.get("k") in ("Unary", "Field", "Index", "Call", "MethodCall"):
+                okr = False
+            if okr is None:
+                r.undecided("%s: a returned value of unrecognised shape" % fn["name"])
+                continue
+            r.ob(okr, {"fn": fn["name"], "returns the id add_type gave": okr})
+            if not okr:
+                r.violate("%s | returns id not from add_type" % fn["path"], F.loc(fn, rv if "sp" in rv else None),
+                          "%s has a path that returns a type index it did not get from add_type (`%s`): the requested type is neither compared in full with the type at that index nor appended" % (fn["name"], snippet(_repo(), fn["file"], rv["sp"]) if "sp" in rv else "?"))
     return r
 
 
